@@ -395,3 +395,74 @@ func ExpectExif(rec *gen.Rec, imageType string) Obs {
 	return o
 }
 
+
+// Flatten turns any struct value into an observation (exported fields, recursively).
+func Flatten(v interface{}) Obs {
+	o := Obs{}
+	flat(o, "", reflect.ValueOf(v))
+	return o
+}
+
+var timeType = reflect.TypeOf(time.Time{})
+
+func flat(o Obs, path string, v reflect.Value) {
+	if v.Type() == timeType {
+		o[path] = fmtTime(v.Interface().(time.Time), false)
+		return
+	}
+	switch v.Kind() {
+	case reflect.Struct:
+		t := v.Type()
+		for i := 0; i < t.NumField(); i++ {
+			if t.Field(i).PkgPath != "" {
+				continue
+			}
+			p := t.Field(i).Name
+			if path != "" {
+				p = path + "." + p
+			}
+			flat(o, p, v.Field(i))
+		}
+	case reflect.Float32:
+		o[path] = f32(float32(v.Float()))
+	case reflect.Float64:
+		o[path] = f64(v.Float())
+	case reflect.String:
+		o[path] = strconv.Quote(v.String())
+	case reflect.Bool:
+		o[path] = strconv.FormatBool(v.Bool())
+	case reflect.Uint8, reflect.Uint16, reflect.Uint32, reflect.Uint64, reflect.Uint:
+		o[path] = strconv.FormatUint(v.Uint(), 10)
+	case reflect.Int8, reflect.Int16, reflect.Int32, reflect.Int64, reflect.Int:
+		o[path] = strconv.FormatInt(v.Int(), 10)
+	case reflect.Array:
+		if v.Type().Elem().Kind() == reflect.Uint8 {
+			b := make([]byte, v.Len())
+			for i := range b {
+				b[i] = byte(v.Index(i).Uint())
+			}
+			o[path] = fmt.Sprintf("%x", b)
+			return
+		}
+		o[path] = fmt.Sprintf("%v", v.Interface())
+	case reflect.Slice:
+		if v.Len() == 0 {
+			o[path] = "[]"
+			return
+		}
+		if v.Type().Elem().Kind() == reflect.String {
+			o[path] = fmt.Sprintf("%q", v.Interface())
+			return
+		}
+		o[path] = fmt.Sprintf("%v", v.Interface())
+	default:
+		o[path] = fmt.Sprintf("%v", v.Interface())
+	}
+}
+
+// FmtTime exposes the time formatting used in observations.
+func FmtTime(t time.Time) string { return fmtTime(t, false) }
+
+// F32 / F64 expose the float formatting used in observations.
+func F32(f float32) string { return f32(f) }
+func F64(f float64) string { return f64(f) }
